@@ -26,7 +26,7 @@ class ConcRunner:
         self.cfg = cfg
         self.program = program
         self.clock = envctl.Clock().install()
-        envctl.SeededUrandom(seed).install()
+        envctl.SeededUrandom(seed, collide=bool(cfg.get('collide'))).install()
         self.dir = envctl.scratch('conc')
         interpose.install(None, self.dir)
         self.settings = dict(eviction_policy=POLICY[cfg['policy']], cull_limit=cfg['cull'],
